@@ -47,7 +47,17 @@ def _guard(fn, task):
 
 def _call(arg):
     idx, fn, task = arg
-    return idx, _guard(fn, task)
+    from mc import core
+
+    # the logging configuration is part of the environment: odd tasks run with DEBUG logging and a formatting handler
+    core.set_logging("debug" if idx % 2 else "off")
+    try:
+        res = _guard(fn, task)
+    finally:
+        core.set_logging("off")
+    if hasattr(res, "c"):
+        res.c["tasks_logging_" + ("debug" if idx % 2 else "off")] = res.c.get("tasks_logging_" + ("debug" if idx % 2 else "off"), 0) + 1
+    return idx, res
 
 
 def pmap(fn, tasks, seed: int = 0, procs: int | None = None):
@@ -57,7 +67,7 @@ def pmap(fn, tasks, seed: int = 0, procs: int | None = None):
     tasks = list(tasks)
     n = procs or PROCS
     if n <= 1 or len(tasks) <= 1:
-        return [_guard(fn, t) for t in tasks]
+        return [_call((i, fn, t))[1] for i, t in enumerate(tasks)]
     order = list(range(len(tasks)))
     random.Random(seed).shuffle(order)
     out = [None] * len(tasks)
